@@ -12,7 +12,7 @@ use crate::smap::{self, Map, Tok};
 use native_iast_rewriter::verif_hooks as vh;
 use serde::{Deserialize, Serialize};
 use serde_json::{json, Value};
-use std::collections::{BTreeMap, BTreeSet};
+use std::collections::BTreeSet;
 use std::panic::{catch_unwind, AssertUnwindSafe};
 
 #[derive(Serialize, Deserialize, Clone, Debug)]
@@ -33,6 +33,13 @@ pub struct Plan10 {
     pub lookalike: bool,
     pub prng_seed: u64,
     pub tags: Vec<String>,
+    /// a second, different original map for the same program (FS histories)
+    #[serde(default)]
+    pub orig_map2: Option<String>,
+    /// FS history for external references: states of the map file between successive calls
+    /// ("missing" | "O" | "O2" | "denied" | "malformed")
+    #[serde(default)]
+    pub fs_history: Vec<String>,
 }
 
 pub struct C10;
@@ -225,7 +232,26 @@ fn plan10(seed: u64, run: u64, tier: Tier) -> Plan10 {
             fatal.flips = vec![(ojson.len() - 1, 1)];
         }
     }
+    // FS history (external usable references only)
+    let mut orig_map2 = None;
+    let mut fs_history = Vec::new();
+    if expected_open.is_some() && orig_map.is_some() {
+        let shape2 = mapgen::gen_shape(&mut rng);
+        orig_map2 = Some(mapgen::gen_orig_map(&mut rng, &program, &shape2).to_json());
+        let states = ["missing", "O", "O2", "denied", "malformed"];
+        let n = rng.range(3, 6);
+        let mut last = "";
+        while fs_history.len() < n {
+            let st = *rng.pick(&states);
+            if st != last {
+                fs_history.push(st.to_string());
+                last = st;
+            }
+        }
+    }
     Plan10 {
+        orig_map2,
+        fs_history,
         file,
         program,
         ref_text,
@@ -273,68 +299,55 @@ fn value_eq_json(a: &str, b: &str) -> bool {
     }
 }
 
-struct Expect {
-    src: String,
-    sl: u32,
-    sc: u32,
-    name: Option<String>,
-}
-
-/// K2: T must be exactly R re-targeted token by token through O
+/// K2 (stated as the property states it, by *resolution*): for every generated position q at
+/// which either map has a token, looking q up in the chained map T must give the same (source,
+/// line, column, name) as looking q up in the rewrite map R and then in the original map O.
+/// Lookup = greatest lower bound, first among equals. Positions whose R token has no original
+/// (R's source position precedes every token of O) carry no expectation. Redundant tokens may be
+/// present or absent in T: only what a position resolves to is compared.
 fn check_composition(r: &Map, o: &Map, t: &Map) -> Result<(usize, usize, usize), String> {
-    let osorted: Vec<Tok> = o.sorted().into_iter().collect();
-    let mut expected: BTreeMap<(u32, u32), Vec<Expect>> = BTreeMap::new();
-    let mut r_positions: BTreeSet<(u32, u32)> = BTreeSet::new();
+    let osorted: Vec<Tok> = o.sorted();
+    let rsorted: Vec<Tok> = r.sorted();
+    let tsorted: Vec<Tok> = t.sorted();
+    let mut positions: BTreeSet<(u32, u32)> = BTreeSet::new();
+    for x in &rsorted {
+        positions.insert((x.gl, x.gc));
+    }
+    for x in &tsorted {
+        positions.insert((x.gl, x.gc));
+    }
     let (mut with_o, mut without_o) = (0usize, 0usize);
-    for rt in &r.toks {
-        r_positions.insert((rt.gl, rt.gc));
-        if rt.src.is_none() {
-            continue;
-        }
-        match Map::glb(&osorted, rt.sl, rt.sc) {
-            Some(ot) => {
-                with_o += 1;
-                let e = Expect {
-                    src: ot.src.and_then(|s| o.source_name(s)).unwrap_or_default(),
-                    sl: ot.sl,
-                    sc: ot.sc,
-                    name: ot.name.and_then(|n| o.names.get(n as usize).cloned()),
-                };
-                expected.entry((rt.gl, rt.gc)).or_default().push(e);
-            }
-            None => {
-                without_o += 1;
-            }
-        }
-    }
-    let mut actual: BTreeMap<(u32, u32), Vec<&Tok>> = BTreeMap::new();
-    for tt in &t.toks {
-        actual.entry((tt.gl, tt.gc)).or_default().push(tt);
-    }
-    for (pos, toks) in &actual {
-        if !r_positions.contains(pos) {
-            return Err(format!("chained map has a token at generated {}:{} where the rewrite map has none", pos.0, pos.1));
-        }
-        if !expected.contains_key(pos) {
-            return Err(format!("chained map has a token at generated {}:{} although the original map has no token at or before the rewrite map's source position ({} tokens)", pos.0, pos.1, toks.len()));
-        }
-    }
-    for (pos, exps) in &expected {
-        let acts = match actual.get(pos) {
-            Some(a) => a,
-            None => return Err(format!("chained map lacks a token at generated {}:{} (expected {}:{}:{})", pos.0, pos.1, exps[0].src, exps[0].sl, exps[0].sc)),
+    for (l, c) in positions {
+        let rt = match Map::glb(&rsorted, l, c) {
+            Some(rt) if rt.src.is_some() => rt,
+            _ => continue,
         };
-        if acts.len() != exps.len() {
-            return Err(format!("generated {}:{}: {} tokens in the chained map, {} expected", pos.0, pos.1, acts.len(), exps.len()));
-        }
-        for (a, e) in acts.iter().zip(exps.iter()) {
-            let asrc = a.src.and_then(|s| t.source_name(s)).unwrap_or_default();
-            let aname = a.name.and_then(|n| t.names.get(n as usize).cloned());
-            if asrc != e.src || a.sl != e.sl || a.sc != e.sc || aname != e.name {
+        let ot = match Map::glb(&osorted, rt.sl, rt.sc) {
+            Some(ot) if ot.src.is_some() => ot,
+            _ => {
+                without_o += 1;
+                continue;
+            }
+        };
+        with_o += 1;
+        let esrc = ot.src.and_then(|s| o.source_name(s)).unwrap_or_default();
+        let ename = ot.name.and_then(|n| o.names.get(n as usize).cloned());
+        match Map::glb(&tsorted, l, c) {
+            None => {
                 return Err(format!(
-                    "generated {}:{} resolves to {}:{}:{} name={:?} in the chained map but composing rewrite map and original map gives {}:{}:{} name={:?}",
-                    pos.0, pos.1, asrc, a.sl, a.sc, aname, e.src, e.sl, e.sc, e.name
-                ));
+                    "generated {l}:{c} resolves to nothing in the chained map but to {esrc}:{}:{} (rewrite map -> {}:{} -> original map)",
+                    ot.sl, ot.sc, rt.sl, rt.sc
+                ))
+            }
+            Some(a) => {
+                let asrc = a.src.and_then(|s| t.source_name(s)).unwrap_or_default();
+                let aname = a.name.and_then(|n| t.names.get(n as usize).cloned());
+                if asrc != esrc || a.sl != ot.sl || a.sc != ot.sc || aname != ename {
+                    return Err(format!(
+                        "generated {l}:{c} resolves to {asrc}:{}:{} name={aname:?} in the chained map but composing rewrite map ({}:{}) and original map gives {esrc}:{}:{} name={ename:?}",
+                        a.sl, a.sc, rt.sl, rt.sc, ot.sl, ot.sc
+                    ));
+                }
             }
         }
     }
@@ -513,8 +526,9 @@ impl Engine for C10 {
                     if *regime == "clean" {
                         match &p.expected_open {
                             Some(path) => {
-                                if out.stats.opens.len() != 1 || &out.stats.opens[0] != path {
-                                    viol.push(Violation::new("K4", "K4:wrong-path", format!("[{tag}] reader was asked for {:?}, expected [{path:?}] (file {:?})", out.stats.opens, p.file)));
+                                // whatever is opened must be the independently resolved path
+                                if out.stats.opens.iter().any(|o| o != path) {
+                                    viol.push(Violation::new("K4", "K4:wrong-path", format!("[{tag}] reader was asked for {:?}, expected only {path:?} (file {:?})", out.stats.opens, p.file)));
                                 }
                             }
                             None => {
@@ -551,11 +565,74 @@ impl Engine for C10 {
                 viol.push(Violation::new("K5", lk("K5:chain-changes-code", &p), format!("[ref={} comments={comments}] the code part differs between chain on and off", p.ref_kind)));
             }
         }
+        // K6: FS history - the map file changes between successive calls of one process
+        if let (Some(path), Some(o1), Some(o2)) = (&p.expected_open, &p.orig_map, &p.orig_map2) {
+            let cfg = cfg_for(true, false);
+            let mut prev = "-".to_string();
+            for (i, state) in p.fs_history.iter().enumerate() {
+                let mut fs = p.fs.clone();
+                let expect: Option<&String> = match state.as_str() {
+                    "missing" => {
+                        fs.nodes.remove(path);
+                        None
+                    }
+                    "O" => {
+                        fs.nodes.insert(path.clone(), FsNode::Text(o1.clone()));
+                        Some(o1)
+                    }
+                    "O2" => {
+                        fs.nodes.insert(path.clone(), FsNode::Text(o2.clone()));
+                        Some(o2)
+                    }
+                    "denied" => {
+                        fs.nodes.insert(path.clone(), FsNode::Denied);
+                        None
+                    }
+                    _ => {
+                        fs.nodes.insert(path.clone(), FsNode::Text(o1[..o1.len() / 2].to_string()));
+                        None
+                    }
+                };
+                events += 1;
+                let out = match run(&cfg, p.prng_seed, &with_ref, &p.file, &fs, &FaultPlan::clean()) {
+                    Ok(o) => o,
+                    Err(_) => break,
+                };
+                if out.status != "modified" {
+                    break;
+                }
+                st(&mut rep, "fs-history-steps", 1);
+                rep.cells.push(format!("fs:{prev}>{state}"));
+                let tag = format!("fs-history step {i}: map file {prev} -> {state}");
+                if let Some((_, tjson)) = smap::split_trailer(&out.content) {
+                    match expect {
+                        None => {
+                            if !value_eq_json(&tjson, &out.r) {
+                                viol.push(Violation::new("K6", "K6:stale-map", format!("[{tag}] the map file is now {state} (no usable original map) but the trailer is not the plain rewrite map")));
+                            }
+                        }
+                        Some(oj) => match (Map::parse(&out.r), Map::parse(oj), Map::parse(&tjson)) {
+                            (Ok(rm), Ok(om), Ok(tm)) => {
+                                if value_eq_json(&tjson, &out.r) {
+                                    viol.push(Violation::new("K6", "K6:map-not-used", format!("[{tag}] a readable original map exists now but the plain rewrite map was emitted")));
+                                } else if let Err(e) = check_composition(&rm, &om, &tm) {
+                                    viol.push(Violation::new("K6", "K6:stale-map", format!("[{tag}] {e}")));
+                                }
+                            }
+                            _ => {}
+                        },
+                    }
+                }
+                log.push(format!("{tag} -> opens={:?} content={:016x}", out.stats.opens, fnv64(out.content.as_bytes())));
+                prev = state.clone();
+            }
+            st(&mut rep, "probe:fs-history-run", 1);
+        }
         let mut seen = BTreeSet::new();
         viol.retain(|v| seen.insert(v.key.clone()));
         rep.violations = viol;
         rep.events = events;
-        let shape = fnv64(format!("{:?}|{}|{}|{:?}|{:?}", p.tags, p.benign.default_chunk, p.fatal.opens.len(), p.fatal.truncate.is_some(), p.fatal.flips.len()).as_bytes());
+        let shape = fnv64(format!("{:?}|{}|{}|{:?}|{:?}|{:?}", p.tags, p.benign.default_chunk, p.fatal.opens.len(), p.fatal.truncate.is_some(), p.fatal.flips.len(), p.fs_history).as_bytes());
         rep.shapes.push(mix(shape, fnv64(p.ref_kind.as_bytes())));
         rep.log_digest = fnv64(log.join("\n").as_bytes());
         if want_log {
@@ -640,7 +717,7 @@ impl Engine for C10 {
     }
 
     fn rule(&self) -> String {
-        "a case is one (program, file, original map O, reference kind, FS state, benign fault plan, fatal fault plan) executed under the matrix {chain on,off} x {comments on,off} x regimes {clean, benign-only, fatal} (regimes run separately) plus the program without the reference; oracles K1 trailer, K2 composition (independent VLQ codec + greatest-lower-bound lookup) or plain-map fallback, K3 benign=clean bytes, K4 resolved path, K5 text preservation. distinct = hash of (O shape, reference kind, look-alike flag, fault plan shape); every case is non-trivial (at least 6 real rewrites, faults injected whenever the reference is external)".into()
+        "a case is one (program, file, original map O, reference kind, FS state, benign fault plan, fatal fault plan) executed under the matrix {chain on,off} x {comments on,off} x regimes {clean, benign-only, fatal} (regimes run separately) plus the program without the reference; oracles K1 trailer, K2 composition (independent VLQ codec + greatest-lower-bound lookup) or plain-map fallback, K3 benign=clean bytes, K4 resolved path, K5 text preservation, K6 FS history (the map file goes missing / O / O2 / denied / malformed between successive calls; each call must reflect the current state). distinct = hash of (O shape, reference kind, look-alike flag, fault plan shape); every case is non-trivial (at least 6 real rewrites, faults injected whenever the reference is external)".into()
     }
 
     fn components(&self) -> Value {
@@ -670,6 +747,7 @@ impl Engine for C10 {
             "probe:fallback-to-plain-map-after-fatal-fault",
             "probe:fatal-fault-after-half-of-body",
             "probe:eintr-during-map-read",
+            "probe:fs-history-run",
         ]
     }
 }
